@@ -145,11 +145,14 @@ def run(ctx):
             case = {"n": n, "n_epochs": ne, "n_neighbors": k, "seed": seed}
             for dm, Xr, variant in ((False, X, "plain"), (True, X, "plain"),
                                     (False, np.vstack([X, np.repeat(X[:1] + 50.0, k + 3, axis=0)]).astype(np.float32), "duplicate-block"),
-                                    (False, (X * 1e-4).astype(np.float32), "scale-1e-4")):
+                                    (False, (X * 1e-4).astype(np.float32), "scale-1e-4"),
+                                    # isolated samples at both ends of the index range (disconnection distance)
+                                    (bool(s % 2), np.vstack([X[:1] + 4000.0, X, X[:2] + np.array([[2000.0], [3000.0]])]).astype(np.float32), "isolated-first-and-last")):
                 n = Xr.shape[0]
                 case = dict(case, variant=variant, n=n)
+                extra_kw = dict(disconnection_distance=500.0) if variant == "isolated-first-and-last" else {}
                 try:
-                    m = umap.UMAP(n_neighbors=k, random_state=seed, n_epochs=ne, output_dens=True, densmap=dm)
+                    m = umap.UMAP(n_neighbors=k, random_state=seed, n_epochs=ne, output_dens=True, densmap=dm, **extra_kw)
                     out = m.fit_transform(Xr)
                 except Exception as ex:  # noqa
                     ctx.violation("exception", f"output_dens fit raised {type(ex).__name__}: {ex}", dict(case, densmap=dm))
